@@ -462,6 +462,7 @@ Definition columns_place (items : col_items) (fp dc mw : Z) (s : size) : list pl
   columns_place_from cs 0 0 (zlen cs) fp dc.
 (* Columns.get_cursor_coords *)
 Definition columns_cursor (items : col_items) (fp dc mw : Z) (s : size) : cplan :=
+  match items with [] => CPNone | _ =>               (* if not self.contents: return None *)
   match nthz items fp with
   | None => CPErr IndexError
   | Some (_, _, ci) =>
@@ -473,7 +474,7 @@ Definition columns_cursor (items : col_items) (fp dc mw : Z) (s : size) : cplan 
       | Some (_, _, csz) =>
           CPAsk fp csz (zsum (map (fun t => let wc := fst (fst t) in if 0 <? wc then dc + wc else 0) (takez fp cs))) 0 None false
       end
-  end.
+  end end.
 (* the column search of Columns.move_cursor_to_coords (integer col) *)
 Fixpoint columns_best (cs : list (Z * Z * size)) (sels : list bool) (i x dc col : Z)
                       (best : option (Z * Z * Z * size)) : option (Z * Z * Z * size) :=     (* (i, x, end, size) *)
@@ -620,7 +621,7 @@ Definition overlay_lrtb (o : ovopts) (ti : cinfo) (maxcol maxrow : Z) : Z * Z * 
   let '(l, r) := padding_values (ov_pad o) maxcol in
   let f := ov_fill o in
   if is_pack (fi_ht f) then
-    let height := i_rows ti maxcol in            (* self.top_w.rows((maxcol,), focus=focus): the FULL width *)
+    let height := i_rows ti (maxcol - l - r) in  (* self.top_w.rows((maxcol - left - right,), focus=focus) *)
     let '(t, b) := calculate_top_bottom_filler maxrow (fi_vt f) (fi_vamt f) GGiven height None (fi_top f) (fi_bottom f) in
     let b := if maxrow <? height then maxrow - height else b in
     (l, r, t, b)
@@ -639,9 +640,9 @@ Definition overlay_place (o : ovopts) (ti : cinfo) (s : size) : list placed :=
       let maxcol := fst s in
       let '(l, r, t, b) := overlay_lrtb o ti maxcol maxrow in
       [Placed 1 0 0 (maxcol, Some maxrow) false true;
-       Placed 0 l t (overlay_top_size o maxcol maxrow l r t b) true false]
+       Placed 0 (Z.max l 0) t (overlay_top_size o maxcol maxrow l r t b) true false]     (* CanvasOverlay(top_c, bottom_c, max(left, 0), top) *)
   end.
-(* Overlay.get_cursor_coords: always hands a (cols, rows) size to top_w and unpacks its answer unconditionally *)
+(* Overlay.get_cursor_coords: top_w is asked with top_w_size(...); None stays None *)
 Definition overlay_cursor (o : ovopts) (ti : cinfo) (s : size) : cplan :=
   if negb (i_hascur ti) then CPNone else
   match snd s with
@@ -649,7 +650,7 @@ Definition overlay_cursor (o : ovopts) (ti : cinfo) (s : size) : cplan :=
   | Some maxrow =>
       let maxcol := fst s in
       let '(l, r, t, b) := overlay_lrtb o ti maxcol maxrow in
-      CPAsk 0 (maxcol - l - r, Some (maxrow - t - b)) l t (Some maxrow) true
+      CPAsk 0 (overlay_top_size o maxcol maxrow l r t b) l t (Some maxrow) false
   end.
 (* Overlay.mouse_event *)
 Definition overlay_route (o : ovopts) (ti : cinfo) (s : size) (col row : Z) (focus : bool) : option routed :=
@@ -661,7 +662,7 @@ Definition overlay_route (o : ovopts) (ti : cinfo) (s : size) (col row : Z) (foc
       if (col <? l) || (maxcol - r <=? col) || (row <? t) || (maxrow - b <=? row) then None
       else Some (Routed 0 (overlay_top_size o maxcol maxrow l r t b) (col - l) (row - t) focus)
   end.
-(* nothing clipped: non-negative margins and the top widget's canvas (rows at ITS width) inside the area *)
+(* nothing clipped: non-negative margins and the top widget's canvas inside the area *)
 Definition overlay_fits (o : ovopts) (ti : cinfo) (s : size) : bool :=
   match snd s with
   | None => false
